@@ -17,6 +17,7 @@
   `rec` (see `segment_clause_in_rule`).
 -/
 import LDEval.Properties.C14
+import LDEval.Proofs.AuditClauseEval
 
 namespace LD.C05
 
@@ -476,5 +477,478 @@ example (negate : Bool) :
 #print axioms segment_clause_in_rule
 #print axioms regular_membership
 #print axioms regular_membership_preprocessed
+
+/-! ## Strengthened statements (theorem audit) -/
+
+section audit
+open ClauseEval
+variable {rec} {env} {chain}
+
+/-! ### (#18) The other two outcomes of a regular segment -/
+
+/-- A context is NOT in a regular segment (a definite "no", not an error) iff it is not included
+and either excluded or no rule matches.  (Go: `segmentContainsContext` returns `false, nil`.) -/
+theorem regular_membership_false (s : Segment) (hu : s.unbounded = false)
+    (hc : chain.contains s.key = false) (hpre : s.pre = {})
+    (hinc : ∀ t ∈ s.includedContexts, t.pre = none) (hexc : ∀ t ∈ s.excludedContexts, t.pre = none)
+    (hdm : ∀ t ∈ s.includedContexts ++ s.excludedContexts,
+      t.contextKind ≠ "" ∧ t.contextKind ≠ "user") :
+    Spec.segBody rec env s chain = .ok false ↔
+      ¬ Included env.ctx s ∧ (Excluded env.ctx s ∨
+        Spec.segRules rec env (chain ++ [s.key]) s s.rules = .ok false) := by
+  obtain ⟨h1, h2, h3⟩ := lists_spec env.ctx s hpre hinc hexc hdm
+  rw [regular_iff rec env s chain hu hc]
+  cases hl : segLists env.ctx s with
+  | none =>
+    have := h3.1 hl
+    simp [this.1, this.2]
+  | some b =>
+    cases b with
+    | true => simp [h1.1 hl]
+    | false => have := h2.1 hl; simp [this.1, this.2]
+
+/-- Membership in a regular segment is an ERROR iff the context is neither included nor excluded
+and the rule scan errs (`rules_first_error`: the first rule that is not a plain non-match errs; the
+error is wrapped with the segment key).  The lists are looked at first: an included or excluded
+context never sees a malformed rule. -/
+theorem regular_membership_err (s : Segment) (e : EvalErr) (hu : s.unbounded = false)
+    (hc : chain.contains s.key = false) (hpre : s.pre = {})
+    (hinc : ∀ t ∈ s.includedContexts, t.pre = none) (hexc : ∀ t ∈ s.excludedContexts, t.pre = none)
+    (hdm : ∀ t ∈ s.includedContexts ++ s.excludedContexts,
+      t.contextKind ≠ "" ∧ t.contextKind ≠ "user") :
+    Spec.segBody rec env s chain = .err e ↔
+      ¬ Included env.ctx s ∧ ¬ Excluded env.ctx s ∧
+        Spec.segRules rec env (chain ++ [s.key]) s s.rules = .err e := by
+  obtain ⟨h1, h2, h3⟩ := lists_spec env.ctx s hpre hinc hexc hdm
+  rw [regular_iff rec env s chain hu hc]
+  cases hl : segLists env.ctx s with
+  | none =>
+    have := h3.1 hl
+    simp [this.1, this.2]
+  | some b =>
+    cases b with
+    | true => simp [h1.1 hl]
+    | false => have := h2.1 hl; simp [this.1, this.2]
+
+/-- A referenced segment whose own evaluation errs makes the whole `segmentMatch` clause err (the
+values before it having contributed nothing); later values are not looked at. -/
+theorem segMatch_err (negate : Bool) (vpre vpost : List J) (k : String) (seg : Segment) (e : EvalErr)
+    (hpre : ∀ k', J.str k' ∈ vpre → NoMatch rec env chain k')
+    (hs : env.store.findSegment k = some seg) (hr : rec seg chain = .err e) :
+    Spec.segMatchValues rec env negate chain (vpre ++ .str k :: vpost) = .err e := by
+  induction vpre with
+  | nil => simp only [List.nil_append, Spec.segMatchValues, hs, hr]
+  | cons v vpre ih =>
+    have ih' := ih (fun k hk => hpre k (by simp [hk]))
+    cases v with
+    | str k' =>
+      rcases hpre k' (by simp) with hm | ⟨seg', hs', hr'⟩
+      · simp only [List.cons_append, Spec.segMatchValues, hm, ih']
+      · simp only [List.cons_append, Spec.segMatchValues, hs', hr', ih']
+    | null => simp only [List.cons_append, Spec.segMatchValues, ih']
+    | bool b => simp only [List.cons_append, Spec.segMatchValues, ih']
+    | num q => simp only [List.cons_append, Spec.segMatchValues, ih']
+    | arr xs => simp only [List.cons_append, Spec.segMatchValues, ih']
+    | obj kvs => simp only [List.cons_append, Spec.segMatchValues, ih']
+    | raw w => simp only [List.cons_append, Spec.segMatchValues, ih']
+
+/-! ### (#16) The membership relation `evaluate` uses, and what a probe flag shows of it -/
+
+/-- `evaluate`'s own membership relation: what a `segmentMatch` clause of a FLAG rule asks about a
+segment the store returned.  (`topSeg env` is the function `evaluate` passes to the flag's rules;
+the model's fuel is fixed there.) -/
+def InSegment (env : Env) (s : Segment) : Prop := topSeg env s [] = .ok true
+
+/-- `InSegment` is what the code-shaped model's own `segContains` (the one threading the cache, the
+status and the lookup lists) returns, from any state whose membership cache is consistent with the
+provider — every state reached during `evaluate` is. -/
+theorem inSegment_model (s : Segment) (st : St) (hst : Consistent env st) :
+    InSegment env s ↔ (segContains (segFuel env.store) env s [] st).1 = .ok true := by
+  rw [(segContains_refines (segFuel env.store) env s [] st hst).1]
+  exact Iff.rfl
+
+/-- MEMBERSHIP IS A FIXPOINT, the same function on both sides (audit #16): on any duplicate-free
+chain of stored segments not containing `s`, a stored regular segment contains the context iff it
+is included, or not excluded and some rule matches — where the segments referenced from those rules
+are answered by the very same function (same fuel, chain extended by `s.key`).  This is "segment
+rules may themselves reference segments" as a statement about ONE relation. -/
+theorem member_fixpoint {n : Nat} (hn : segFuel env.store ≤ n) (hnd : chain.Nodup)
+    (hsub : ∀ k ∈ chain, k ∈ env.store.segments.map (·.2.key))
+    (s : Segment) (hs : s.key ∈ env.store.segments.map (·.2.key))
+    (hu : s.unbounded = false) (hc : chain.contains s.key = false) (hpre : s.pre = {})
+    (hinc : ∀ t ∈ s.includedContexts, t.pre = none) (hexc : ∀ t ∈ s.excludedContexts, t.pre = none)
+    (hdm : ∀ t ∈ s.includedContexts ++ s.excludedContexts,
+      t.contextKind ≠ "" ∧ t.contextKind ≠ "user") :
+    Spec.segContains n env s chain = .ok true ↔
+      Included env.ctx s ∨ (¬ Excluded env.ctx s ∧
+        Spec.segRules (Spec.segContains n env) env (chain ++ [s.key]) s s.rules = .ok true) := by
+  rw [segContains_fixpoint hn hnd hsub s hs]
+  exact regular_membership (Spec.segContains n env) env chain s hu hc hpre hinc hexc hdm
+
+/-- The nested references of a stored segment's rules are followed by the same relation as the
+top-level one, whatever the (sufficient) fuel: the answer for a stored segment on a duplicate-free
+chain of stored segments does not depend on the fuel. -/
+theorem member_fuel_irrelevant {n m : Nat} (hn : segFuel env.store ≤ n) (hnm : n ≤ m)
+    (hnd : chain.Nodup) (hsub : ∀ k ∈ chain, k ∈ env.store.segments.map (·.2.key))
+    (s : Segment) (hs : s.key ∈ env.store.segments.map (·.2.key)) :
+    Spec.segContains m env s chain = Spec.segContains n env s chain :=
+  segContains_fuel_irrelevant ⟨hnd, hsub, by unfold segFuel at hn; omega⟩ hnm s hs
+
+/-- For the segment a flag rule references (`k` is the clause value, `s` what the store returns):
+`s` contains the context iff included, or not excluded and some rule of `s` matches, nested
+references being followed by `evaluate`'s own membership function. -/
+theorem inSegment_iff {k : String} (s : Segment) (hs : env.store.findSegment k = some s)
+    (hu : s.unbounded = false) (hpre : s.pre = {})
+    (hinc : ∀ t ∈ s.includedContexts, t.pre = none) (hexc : ∀ t ∈ s.excludedContexts, t.pre = none)
+    (hdm : ∀ t ∈ s.includedContexts ++ s.excludedContexts,
+      t.contextKind ≠ "" ∧ t.contextKind ≠ "user") :
+    InSegment env s ↔
+      Included env.ctx s ∨ (¬ Excluded env.ctx s ∧
+        Spec.segRules (topSeg env) env [s.key] s s.rules = .ok true) :=
+  member_fixpoint (Nat.le_refl _) List.nodup_nil (by simp) s (findSegment_ownKey hs) hu (by simp)
+    hpre hinc hexc hdm
+
+/-- SEGMENT RULES MAY THEMSELVES REFERENCE SEGMENTS — AND IT IS THE SAME RELATION.  A `segmentMatch`
+clause met while evaluating a segment rule (any chain of enclosing segments), none of whose
+referenced existing segments errs (in particular: no cycle), is
+`negate ⊻ (the context is in some referenced segment that exists in the store)` where "is in" is
+`InSegment`, the very relation a flag rule asks about: the chain, which only serves the cycle test,
+does not show in the answer (`topSeg_nested_eq_top`), nor does the fuel (`member_fixpoint`). -/
+theorem nested_segment_clause (c : Clause) (hop : c.op = "segmentMatch")
+    (hok : ∀ k seg, J.str k ∈ c.values → env.store.findSegment k = some seg →
+      ∃ b, topSeg env seg chain = .ok b) :
+    ∃ b, Spec.clauseMatch (topSeg env) env chain c = .ok b ∧
+      (b = true ↔ (c.negate = false ↔
+        ∃ k seg, J.str k ∈ c.values ∧ env.store.findSegment k = some seg ∧ InSegment env seg)) := by
+  rw [segment_clause_in_rule (topSeg env) env chain c hop]
+  obtain ⟨b, hb, hiff⟩ := segment_clause (topSeg env) env chain c.negate c.values hok
+  refine ⟨b, hb, hiff.trans (iff_congr Iff.rfl ?_)⟩
+  constructor
+  · rintro ⟨k, seg, hk, hs, hin⟩
+    exact ⟨k, seg, hk, hs, topSeg_nested_eq_top env seg chain true hin⟩
+  · rintro ⟨k, seg, hk, hs, hin⟩
+    obtain ⟨b', hb'⟩ := hok k seg hk hs
+    have := topSeg_nested_eq_top env seg chain b' hb'
+    rw [hin] at this
+    cases this
+    exact ⟨k, seg, hk, hs, hb'⟩
+
+section probe
+variable {f : Flag} {pre post : List FlagRule} {r : FlagRule} {cpre cpost : List Clause} {c : Clause}
+
+/-- SEGMENT-MATCH CLAUSE, AT `evaluate`.  The evaluation of `f` arrives at a `segmentMatch` clause
+of rule number `pre.length` (`AtClause`), the rule's other clauses match and the rule serves a fixed
+valid variation.  Provided no referenced, existing segment errs, `evaluate` answers RULE_MATCH for
+that rule iff `negate ⊻ (the context is in some referenced segment that exists in the store)`:
+missing segments and non-string values contribute nothing, negation inverts exactly that. -/
+theorem evaluate_segment_clause_iff (h : AtClause env f pre r post cpre c cpost)
+    (hop : c.op = "segmentMatch")
+    (hafter : ∀ q ∈ cpost, Spec.clauseMatch (topSeg env) env [] q = .ok true)
+    {v : Int} (hv : r.vr.variation = some v) (h0 : 0 ≤ v) (h1 : v < f.variations.length)
+    (hok : ∀ k seg, J.str k ∈ c.values → env.store.findSegment k = some seg →
+      ∃ b, topSeg env seg [] = .ok b) :
+    RuleMatchAt env f pre.length ↔
+      (c.negate = false ↔
+        ∃ k seg, J.str k ∈ c.values ∧ env.store.findSegment k = some seg ∧ InSegment env seg) := by
+  rw [h.ruleMatch_iff hafter hv h0 h1, segment_clause_in_rule (topSeg env) env [] c hop]
+  obtain ⟨b, hb, hiff⟩ := segment_clause (topSeg env) env [] c.negate c.values hok
+  rw [hb]
+  simpa [InSegment] using hiff
+
+/-- … and when it matches, `evaluate` serves exactly that rule's variation with RULE_MATCH, the
+rule's index and id. -/
+theorem evaluate_segment_clause_serves (h : AtClause env f pre r post cpre c cpost)
+    (hop : c.op = "segmentMatch")
+    (hafter : ∀ q ∈ cpost, Spec.clauseMatch (topSeg env) env [] q = .ok true)
+    {v : Int} (hv : r.vr.variation = some v) (h0 : 0 ≤ v) (h1 : v < f.variations.length)
+    (hneg : c.negate = false) {k : String} {seg : Segment} (hk : J.str k ∈ c.values)
+    (hs : env.store.findSegment k = some seg) (hin : InSegment env seg)
+    (hok : ∀ k seg, J.str k ∈ c.values → env.store.findSegment k = some seg →
+      ∃ b, topSeg env seg [] = .ok b) :
+    (evaluate env f).result.detail.value = f.variations.getD v.toNat .null ∧
+    (evaluate env f).result.detail.index = some v ∧
+    (evaluate env f).result.detail.reason.kind = .ruleMatch ∧
+    (evaluate env f).result.detail.reason.ruleIndex = pre.length ∧
+    (evaluate env f).result.detail.reason.ruleId = r.id := by
+  have hcm : Spec.clauseMatch (topSeg env) env [] c = .ok true := by
+    rw [segment_clause_in_rule (topSeg env) env [] c hop]
+    obtain ⟨b, hb, hiff⟩ := segment_clause (topSeg env) env [] c.negate c.values hok
+    rw [hb, hiff.2 ⟨fun _ => ⟨k, seg, hk, hs, hin⟩, fun _ => hneg⟩]
+  refine h.toAtRule.matched_fixed ?_ hv h0 h1
+  rw [h.clauses]
+  exact (clausesMatch_at_iff cpre c cpost h.before hafter).2 hcm
+
+/-- Only missing segments and non-string values: the clause is just `negate` — at `evaluate`:
+RULE_MATCH for that rule iff the clause is negated. -/
+theorem evaluate_segment_clause_all_missing (h : AtClause env f pre r post cpre c cpost)
+    (hop : c.op = "segmentMatch")
+    (hafter : ∀ q ∈ cpost, Spec.clauseMatch (topSeg env) env [] q = .ok true)
+    {v : Int} (hv : r.vr.variation = some v) (h0 : 0 ≤ v) (h1 : v < f.variations.length)
+    (hmiss : ∀ k, J.str k ∈ c.values → env.store.findSegment k = none) :
+    RuleMatchAt env f pre.length ↔ c.negate = true := by
+  rw [evaluate_segment_clause_iff h hop hafter hv h0 h1
+    (fun k seg hk hs => by rw [hmiss k hk] at hs; cases hs)]
+  have : ¬ ∃ k seg, J.str k ∈ c.values ∧ env.store.findSegment k = some seg ∧ InSegment env seg := by
+    rintro ⟨k, seg, hk, hs, -⟩; rw [hmiss k hk] at hs; cases hs
+  rw [iff_false_intro this]
+  cases c.negate <;> simp
+
+/-- A referenced segment that errs (malformed rule, cycle) makes `evaluate` answer MALFORMED_FLAG,
+the clause values before it having contributed nothing. -/
+theorem evaluate_segment_clause_err (h : AtClause env f pre r post cpre c cpost)
+    (hop : c.op = "segmentMatch") {vpre vpost : List J} {k : String} {seg : Segment} {e : EvalErr}
+    (hvals : c.values = vpre ++ .str k :: vpost)
+    (hvpre : ∀ k', J.str k' ∈ vpre → NoMatch (topSeg env) env [] k')
+    (hs : env.store.findSegment k = some seg) (herr : topSeg env seg [] = .err e) :
+    Malformed env f := by
+  refine h.errored (e := e) ?_
+  rw [segment_clause_in_rule (topSeg env) env [] c hop, hvals]
+  exact segMatch_err c.negate vpre vpost k seg e hvpre hs herr
+
+/-- PROBE FLAG FOR ONE REGULAR SEGMENT.  A rule of `f` whose clause in question is
+`segmentMatch [k]` (not negated), `s` the stored regular segment filed under `k`, no error in `s`:
+`evaluate` answers RULE_MATCH for that rule iff the context is included in `s`, or not excluded and
+some rule of `s` matches. -/
+theorem evaluate_regular_segment_iff (h : AtClause env f pre r post cpre c cpost)
+    (hop : c.op = "segmentMatch") (hneg : c.negate = false) {k : String} (hvals : c.values = [.str k])
+    (hafter : ∀ q ∈ cpost, Spec.clauseMatch (topSeg env) env [] q = .ok true)
+    {v : Int} (hv : r.vr.variation = some v) (h0 : 0 ≤ v) (h1 : v < f.variations.length)
+    (s : Segment) (hs : env.store.findSegment k = some s) (hok : ∃ b, topSeg env s [] = .ok b)
+    (hu : s.unbounded = false) (hpre : s.pre = {})
+    (hinc : ∀ t ∈ s.includedContexts, t.pre = none) (hexc : ∀ t ∈ s.excludedContexts, t.pre = none)
+    (hdm : ∀ t ∈ s.includedContexts ++ s.excludedContexts,
+      t.contextKind ≠ "" ∧ t.contextKind ≠ "user") :
+    RuleMatchAt env f pre.length ↔
+      Included env.ctx s ∨ (¬ Excluded env.ctx s ∧
+        Spec.segRules (topSeg env) env [s.key] s s.rules = .ok true) := by
+  rw [evaluate_segment_clause_iff h hop hafter hv h0 h1 (by
+      intro k' seg hk' hs'
+      rw [hvals] at hk'
+      simp only [List.mem_singleton, J.str.injEq] at hk'
+      subst hk'; rw [hs] at hs'; cases hs'; exact hok),
+    ← inSegment_iff s hs hu hpre hinc hexc hdm]
+  simp only [hneg, true_iff]
+  constructor
+  · rintro ⟨k', seg, hk', hs', hin⟩
+    rw [hvals] at hk'
+    simp only [List.mem_singleton, J.str.injEq] at hk'
+    subst hk'; rw [hs] at hs'; cases hs'; exact hin
+  · intro hin; exact ⟨k, s, by rw [hvals]; simp, hs, hin⟩
+
+end probe
+end audit
+
+/-! ### (#19) A full instance of `regular_membership`, and the probe flag evaluated -/
+
+namespace AuditEx
+open ClauseEval
+
+/-- A `user` context `k` named Bob. -/
+def bob : Ctx := .single { kind := "user", key := "k", name := some "Bob" }
+def nameIsBob : Clause :=
+  { attr := { raw := "name", single := "name" }, op := "in", values := [.str "Bob"] }
+/-- A regular segment with all four lists and one rule. -/
+def seg : Segment :=
+  { key := "s", included := ["a"], excluded := ["b"],
+    includedContexts := [{ contextKind := "org", values := ["o1"] }],
+    excludedContexts := [{ contextKind := "org", values := ["o2"] }],
+    rules := [{ clauses := [nameIsBob] }] }
+/-- A segment whose only rule has a clause without attribute reference. -/
+def badSeg : Segment := { key := "bad", rules := [{ clauses := [{ op := "in" }] }] }
+def envOf (ctx : Ctx) : Env :=
+  { opts := {}, store := Store.ofLists [] [seg, badSeg], bs := none, ctx := ctx,
+    rx := fun _ _ => none }
+
+theorem seg_hdm : ∀ t ∈ seg.includedContexts ++ seg.excludedContexts,
+    t.contextKind ≠ "" ∧ t.contextKind ≠ "user" := by
+  intro t ht
+  simp only [seg, List.cons_append, List.nil_append, List.mem_cons, List.not_mem_nil, or_false] at ht
+  rcases ht with rfl | rfl <;> exact ⟨by decide, by decide⟩
+
+theorem bob_not_excluded : ¬ Excluded bob seg := by
+  simp [Excluded, inUserList, inKindLists, bob, seg, Ctx.keyByKind, Ctx.byKind, Ctx.individuals,
+    normKind]
+
+theorem bob_not_included : ¬ Included bob seg := by
+  simp [Included, inUserList, inKindLists, bob, seg, Ctx.keyByKind, Ctx.byKind, Ctx.individuals,
+    normKind]
+
+/-- ALL hypotheses of `regular_membership` hold for `seg`, and its right-hand side holds through
+the rule (Bob is neither included nor excluded; the rule `name in ["Bob"]` matches): the theorem
+yields membership, for every nested-membership function `rec`. -/
+example (rec : Spec.SegRec) : Spec.segBody rec (envOf bob) seg [] = .ok true :=
+  (regular_membership rec (envOf bob) [] seg rfl rfl rfl (by simp [seg]) (by simp [seg]) seg_hdm).2
+    (.inr ⟨bob_not_excluded, rfl⟩)
+
+/-- The same instance read from left to right: the computed membership gives the declarative
+disjunction. -/
+example (rec : Spec.SegRec) : Included bob seg ∨ (¬ Excluded bob seg ∧
+    Spec.segRules rec (envOf bob) ([] ++ [seg.key]) seg seg.rules = .ok true) :=
+  (regular_membership rec (envOf bob) [] seg rfl rfl rfl (by simp [seg]) (by simp [seg]) seg_hdm).1 rfl
+
+/-- A multi-kind context whose `org` key is on the per-kind included list: membership through the
+left disjunct, although the `user` key is on the excluded list. -/
+def orgCtx : Ctx := .multi [{ kind := "org", key := "o1" }, { kind := "user", key := "b" }]
+example (rec : Spec.SegRec) : Spec.segBody rec (envOf orgCtx) seg [] = .ok true :=
+  (regular_membership rec (envOf orgCtx) [] seg rfl rfl rfl (by simp [seg]) (by simp [seg]) seg_hdm).2
+    (.inl (.inr ⟨{ contextKind := "org", values := ["o1"] }, by simp [seg], "o1",
+      by simp [orgCtx, envOf, Ctx.keyByKind, Ctx.byKind, Ctx.individuals, normKind], by simp⟩))
+
+/-- A probe flag: rule 0 never matches (kind `org` is absent), rule 1 is `segmentMatch ["s"]`. -/
+def probe : Flag :=
+  { key := "probe", on := true, variations := [.bool false, .bool true],
+    fallthrough := { variation := some 0 },
+    rules := [ { id := "r0", vr := { variation := some 0 },
+                 clauses := [{ contextKind := "org", attr := { raw := "key", single := "key" },
+                               op := "in", values := [.str "x"] }] },
+               { id := "r1", vr := { variation := some 1 },
+                 clauses := [{ op := "segmentMatch", values := [.num 7, .str "missing", .str "s"] }] } ] }
+
+theorem probe_atClause : AtClause (envOf bob) probe
+    [{ id := "r0", vr := { variation := some 0 },
+       clauses := [{ contextKind := "org", attr := { raw := "key", single := "key" },
+                     op := "in", values := [.str "x"] }] }]
+    { id := "r1", vr := { variation := some 1 },
+      clauses := [{ op := "segmentMatch", values := [.num 7, .str "missing", .str "s"] }] } []
+    [] { op := "segmentMatch", values := [.num 7, .str "missing", .str "s"] } [] where
+  reaches := ReachesRules.of_no_prereqs (by simp [envOf, bob]) rfl rfl rfl
+  rules := rfl
+  skipped := by
+    intro q hq; rw [List.mem_singleton.1 hq]; rfl
+  clauses := rfl
+  before := by intro q hq; cases hq
+
+/-- The hypotheses of `evaluate_segment_clause_iff` are satisfiable, and its right-hand side holds:
+`evaluate` answers RULE_MATCH for rule 1. -/
+example : RuleMatchAt (envOf bob) probe 1 :=
+  (evaluate_segment_clause_iff probe_atClause rfl (by intro q hq; cases hq) (v := 1) rfl
+      (by decide) (by decide)
+      (by
+        intro k sg hk hs
+        simp only [List.mem_cons, reduceCtorEq, J.str.injEq, List.not_mem_nil, or_false,
+          false_or] at hk
+        rcases hk with rfl | rfl
+        · simp [envOf, Store.findSegment, Store.ofLists, seg, badSeg] at hs
+        · simp only [envOf, Store.findSegment, Store.ofLists, List.map_cons, List.map_nil,
+            List.find?_cons] at hs
+          simp only [seg, beq_self_eq_true, Option.map_some, Option.some.injEq] at hs
+          subst hs; exact ⟨true, rfl⟩)).2
+    (by
+      simp only [true_iff]
+      exact ⟨"s", seg, by simp, rfl, rfl⟩)
+
+/-- The same, computed by the model itself. -/
+example : (evaluate (envOf bob) probe).result.detail.index = some 1 ∧
+    (evaluate (envOf bob) probe).result.detail.reason.kind = .ruleMatch ∧
+    (evaluate (envOf bob) probe).result.detail.reason.ruleIndex = 1 ∧
+    (evaluate (envOf bob) probe).result.detail.reason.ruleId = "r1" ∧
+    (evaluate (envOf bob) probe).segLookups = ["missing", "s"] := by decide
+
+/-- A context that is excluded (`user` key `b`): FALLTHROUGH, the rule of `seg` is not consulted. -/
+example : (evaluate (envOf (.single { kind := "user", key := "b", name := some "Bob" })) probe
+    ).result.detail.reason.kind = .fallthrough := by decide
+
+/-- The same probe with an arbitrary clause in rule 1 (for the other `evaluate`-level statements). -/
+def probeC (c : Clause) : Flag :=
+  { key := "probe", on := true, variations := [.bool false, .bool true],
+    fallthrough := { variation := some 0 },
+    rules := [ { id := "r0", vr := { variation := some 0 },
+                 clauses := [{ contextKind := "org", attr := { raw := "key", single := "key" },
+                               op := "in", values := [.str "x"] }] },
+               { id := "r1", vr := { variation := some 1 }, clauses := [c] } ] }
+
+theorem probeC_atClause (ctx : Ctx) (hctx : ctx ≠ .invalid)
+    (horg : ctx.byKind "org" = none) (c : Clause) : AtClause (envOf ctx) (probeC c)
+    [{ id := "r0", vr := { variation := some 0 },
+       clauses := [{ contextKind := "org", attr := { raw := "key", single := "key" },
+                     op := "in", values := [.str "x"] }] }]
+    { id := "r1", vr := { variation := some 1 }, clauses := [c] } [] [] c [] where
+  reaches := ReachesRules.of_no_prereqs hctx rfl rfl rfl
+  rules := rfl
+  skipped := by
+    intro q hq; rw [List.mem_singleton.1 hq]
+    simp only [Spec.clausesMatch, Spec.clauseMatch]
+    have : clauseMatchNoSeg (envOf ctx).rx (envOf ctx).ctx
+        { contextKind := "org", attr := { raw := "key", single := "key" }, op := "in",
+          values := [.str "x"] } = .ok false := by
+      simp [clauseMatchNoSeg, Ref.isDefined, Ref.errOf, envOf, horg]
+    rw [this]; rfl
+  clauses := rfl
+  before := by intro q hq; cases hq
+
+theorem seg_found (ctx : Ctx) : (envOf ctx).store.findSegment "s" = some seg := rfl
+
+/-- `inSegment_iff` instantiated (all hypotheses), right-hand side through the rule. -/
+example : InSegment (envOf bob) seg :=
+  (inSegment_iff seg (seg_found bob) rfl rfl (by simp [seg]) (by simp [seg]) seg_hdm).2
+    (.inr ⟨bob_not_excluded, rfl⟩)
+
+/-- `evaluate_regular_segment_iff` instantiated: the probe's rule 1 is `segmentMatch ["s"]`. -/
+example : RuleMatchAt (envOf bob) (probeC { op := "segmentMatch", values := [.str "s"] }) 1 :=
+  (evaluate_regular_segment_iff (probeC_atClause bob (by simp [bob]) rfl _) rfl rfl rfl
+      (by intro q hq; cases hq) (v := 1) rfl (by decide) (by decide) seg (seg_found bob)
+      ⟨true, rfl⟩ rfl rfl (by simp [seg]) (by simp [seg]) seg_hdm).2
+    (.inr ⟨bob_not_excluded, rfl⟩)
+
+/-- `evaluate_segment_clause_all_missing` instantiated: only a missing segment and a number are
+referenced; the negated clause matches. -/
+example : RuleMatchAt (envOf bob)
+    (probeC { op := "segmentMatch", values := [.str "missing", .num 7], negate := true }) 1 :=
+  (evaluate_segment_clause_all_missing (probeC_atClause bob (by simp [bob]) rfl _) rfl
+      (by intro q hq; cases hq) (v := 1) rfl (by decide) (by decide)
+      (by
+        intro k hk
+        simp only [List.mem_cons, J.str.injEq, reduceCtorEq, List.not_mem_nil, or_false] at hk
+        subst hk; rfl)).2 rfl
+
+/-- `regular_membership_false` instantiated: the `user` key `b` is on the excluded list. -/
+example (rec : Spec.SegRec) :
+    Spec.segBody rec (envOf (.single { kind := "user", key := "b" })) seg [] = .ok false :=
+  (regular_membership_false (rec := rec) (env := envOf (.single { kind := "user", key := "b" }))
+      (chain := []) seg rfl rfl rfl (by simp [seg]) (by simp [seg]) seg_hdm).2
+    ⟨by simp [Included, inUserList, inKindLists, envOf, seg, Ctx.keyByKind, Ctx.byKind,
+        Ctx.individuals, normKind],
+     .inl (.inl ⟨"b", by simp [envOf, Ctx.keyByKind, Ctx.byKind, Ctx.individuals, normKind],
+       by simp [seg]⟩)⟩
+
+/-- `nested_segment_clause` instantiated: the clause `segmentMatch ["s"]` met inside the rules of
+some enclosing segment `x` asks the top-level relation. -/
+example : ∃ b, Spec.clauseMatch (topSeg (envOf bob)) (envOf bob) ["x"]
+      { op := "segmentMatch", values := [.str "s"] } = .ok b ∧
+    (b = true ↔ ((false = false) ↔ ∃ k sg, J.str k ∈ [J.str "s"] ∧
+      (envOf bob).store.findSegment k = some sg ∧ InSegment (envOf bob) sg)) :=
+  nested_segment_clause (env := envOf bob) (chain := ["x"])
+    { op := "segmentMatch", values := [.str "s"] } rfl
+    (by
+      intro k sg hk hs
+      simp only [List.mem_singleton, J.str.injEq] at hk
+      subst hk
+      rw [seg_found bob] at hs; cases hs
+      exact ⟨true, rfl⟩)
+
+/-- `member_fixpoint` / `regular_membership_err` instantiated on a segment whose rule is malformed:
+the nested error surfaces wrapped with the segment key, and `evaluate` answers MALFORMED_FLAG
+(`evaluate_segment_clause_err`). -/
+example : topSeg (envOf bob) badSeg [] = .err (.malformedSegment "bad" .emptyAttr) := rfl
+example : Malformed (envOf bob) (probeC { op := "segmentMatch", values := [.str "bad"] }) :=
+  evaluate_segment_clause_err (e := .malformedSegment "bad" .emptyAttr)
+    (probeC_atClause bob (by simp [bob]) rfl _) rfl (vpre := []) (vpost := []) (k := "bad")
+    (seg := badSeg) rfl (by intro k' hk'; cases hk') rfl rfl
+
+end AuditEx
+
+#print axioms regular_membership_false
+#print axioms regular_membership_err
+#print axioms segMatch_err
+#print axioms member_fixpoint
+#print axioms member_fuel_irrelevant
+#print axioms inSegment_iff
+#print axioms inSegment_model
+#print axioms nested_segment_clause
+#print axioms evaluate_segment_clause_iff
+#print axioms evaluate_segment_clause_serves
+#print axioms evaluate_segment_clause_all_missing
+#print axioms evaluate_segment_clause_err
+#print axioms evaluate_regular_segment_iff
 
 end LD.C05
